@@ -48,6 +48,30 @@ def compactJSON (s : String) : String :=
       else go rest false false (c :: acc)
   String.ofList (go s.toList false false [])
 
+/-- Stable insertion sort (kernel-reducible, so that examples can be decided). -/
+def insertBy {α : Type} (le : α → α → Bool) (x : α) : List α → List α
+  | [] => [x]
+  | y :: ys => if le x y then x :: y :: ys else y :: insertBy le x ys
+
+def isort {α : Type} (le : α → α → Bool) : List α → List α
+  | [] => []
+  | x :: xs => insertBy le x (isort le xs)
+
+theorem insertBy_perm {α : Type} (le : α → α → Bool) (x : α) (l : List α) : (insertBy le x l).Perm (x :: l) := by
+  induction l with
+  | nil => exact List.Perm.refl _
+  | cons y ys ih =>
+    simp only [insertBy]
+    by_cases h : le x y = true
+    · simp [h]
+    · simp only [h, Bool.false_eq_true, if_false]
+      exact (List.Perm.cons y ih).trans (List.Perm.swap x y ys)
+
+theorem isort_perm {α : Type} (le : α → α → Bool) (l : List α) : (isort le l).Perm l := by
+  induction l with
+  | nil => exact List.Perm.refl _
+  | cons x xs ih => exact (insertBy_perm le x _).trans (List.Perm.cons x ih)
+
 /-! ### Objects -/
 
 /-- Everything `Equal`/`sortRules` look at besides service and the two group lists,
@@ -287,7 +311,7 @@ def scopeB (cs : List Call) : Bool := cs.all (managed ·.target)
 def findGroupLast (gs : List Group) (id : String) : Option Group := findGroup gs.reverse id
 
 def canonAddrs (l : List String) : List String :=
-  (l.mergeSort fun a b => decide (a ≤ b)).eraseDups
+  (isort (fun a b => decide (a ≤ b)) l).eraseDups
 
 /-- What a source/destination entry denotes: a managed group is its address set,
 anything else (address, `ANY`, group outside Netspoc's scope) its text. -/
